@@ -171,6 +171,19 @@ check("C11",
       "TLA+ build machine with liveness (C11_MC) and search function (C11_KNN_MC) model-checked; pivot-injected replay; TLC trace validation (C11_Trace)",
       "DESIGN.md 6.11")
 
+check("C15",
+      "TLC runs the library's border walk (first border neighbour, in rotational order, that is not the vertex just left) from every "
+      "border vertex of every enumerated oriented manifold complex (<= 5 vertices, <= 4 faces) and checks it returns exactly the border "
+      "loop of its start; with unsorted neighbourhoods the model fails (documented reliance on sorting). The real "
+      "extract_border_cycle(_all) / extract_boundary_of_surface run on enumerated complexes, library shapes with several loops and "
+      "components and a disk with chords, from every start; FeatureEdgeDetector runs on lattice roof strips whose dihedral lies on either "
+      "side of both thresholds (with and without declared hard edges) and random lattice triangle surfaces, for all options; TLC judges "
+      "cycles via MeshCore and the feature set by integer dihedral tests, plus feature vertices, degrees, local indices and corner orders.",
+      "Sorting on (default). Feature tests on lattice triangle meshes; exact-threshold and degenerate cases skipped; corner orders judged "
+      "only for angle sums that are exact multiples of pi/4 off rounding ties. Map direction of the border polyline free.",
+      "TLA+ border-walk function checked with TLC over MeshEnum (C15_MC); TLC trace validation with integer dihedral arithmetic (C15_Trace)",
+      "DESIGN.md 6.15")
+
 ALL = ["C%02d" % i for i in range(1, 21)]
 
 
